@@ -1012,6 +1012,34 @@ impl<T: CoreKind> Obj for CoreObj<T> {
                 self.c.apply_keystream_blocks_inout(io);
                 line(format!("out {}", hex(&o)))
             }
+            ["partial", x] => {
+                // `StreamCipherCore::try_apply_keystream_partial` consumes the core: the object continues as a fresh core
+                // created from the state exported *before* the call (like `reinit`)
+                let Some(mut b) = unhex(x) else { return bad() };
+                let st = self.c.iv_state();
+                let fresh = <T as KeyIvInit>::new(self.key.as_slice().try_into().unwrap(), &st);
+                let old = core::mem::replace(&mut self.c, fresh);
+                let orig = b.clone();
+                match old.try_apply_keystream_partial(b.as_mut_slice().into()) {
+                    Ok(()) => line(format!("out {}", hex(&b))),
+                    Err(_) => line(if b == orig { "err".into() } else { format!("errmod {}", hex(&b)) }),
+                }
+            }
+            ["partialb", x, g] => {
+                let (Some(b), Some(mut o)) = (unhex(x), unhex(g)) else { return bad() };
+                if b.len() != o.len() {
+                    return bad();
+                }
+                let st = self.c.iv_state();
+                let fresh = <T as KeyIvInit>::new(self.key.as_slice().try_into().unwrap(), &st);
+                let old = core::mem::replace(&mut self.c, fresh);
+                let orig = o.clone();
+                let io = cipher::inout::InOutBuf::new(b.as_slice(), o.as_mut_slice()).unwrap();
+                match old.try_apply_keystream_partial(io) {
+                    Ok(()) => line(format!("out {}", hex(&o))),
+                    Err(_) => line(if o == orig { "err".into() } else { format!("errmod {}", hex(&o)) }),
+                }
+            }
             ["setpos", n] => {
                 let Ok(p) = n.parse::<u128>() else { return bad() };
                 if !T::SEEKABLE || !self.c.set_pos(p) {
